@@ -471,6 +471,13 @@ fn faults(s: &mut Stats, names: &[&str], main: &str, files: &[(PathBuf, String)]
                 if k == "size" && !v.parse::<i64>().is_ok() {
                     muts.push(("unknown size unit", Some(line.replace(v, "4X")), true));
                 }
+                if k == "size" {
+                    // sizes whose byte count does not fit 64 bits (2^63, 2^64 and their neighbours under each unit): a
+                    // scaling that wraps or drops bits would load them as small caches
+                    for big in ["8589934592G", "17179869184G", "17179869185G", "9999999999999999G", "17592186044416M", "17592186044417M", "18014398509481984K", "18014398509481988K", "9223372036854775807K", "9223372036854775808", "18446744073709551616"] {
+                        muts.push(("size that does not fit 64 bits", Some(line.replace(v, big)), true));
+                    }
+                }
                 if k == "console" {
                     muts.push(("not a boolean", Some(line.replace(v, "maybe")), true));
                 }
